@@ -30,6 +30,10 @@ def regression_with_report():
     return lsl.GraphBuilder().add(y, resid).build_model()
 
 
+def _reg_goose():
+    return regression_with_report()
+
+
 SCENARIOS = {
     # name: (builder, first position keys, second position keys, same state object for both calls)
     "regression+report/same-state": (regression_with_report, ["beta", "sigma_transformed"], ["beta"], True),
@@ -38,6 +42,10 @@ SCENARIOS = {
     "degenerate-mvn-prior": (M.mvnd_prior, ["beta"], ["tau2"], True),
     "user-supplied totals": (M.user_totals, ["mu"], ["mu"], False),
     "auto_transform": (M.auto_transform, ["mu", "tau_transformed"], ["tau_transformed"], True),
+    # the deprecated alias lsl.GooseModel carries its own copy of the interface code; and models whose auto-update is switched off
+    "regression+report/GooseModel": (regression_with_report, ["beta", "sigma_transformed"], ["beta"], False),
+    "regression+report/GooseModel/auto_update=False": (regression_with_report, ["beta", "sigma_transformed"], ["sigma_transformed"], False),
+    "regression+report/auto_update=False": (regression_with_report, ["beta", "sigma_transformed"], ["beta"], True),
 }
 
 
@@ -45,10 +53,36 @@ def liesel_scenario(chk, name):
     import liesel.goose as gs
     import liesel.model as lsl
     build, keys1, keys2, same = SCENARIOS[name]
+    import warnings
     model = build()
+    if "auto_update=False" in name:
+        model.auto_update = False
+    Iface = lsl.GooseModel if "GooseModel" in name else gs.LieselInterface
     before = jax.tree_util.tree_map(lambda x: np.asarray(x).copy(), M.values_of(model.state))
-    used, fresh, mk = gs.LieselInterface(model), gs.LieselInterface(model), gs.LieselInterface(model)
+    with warnings.catch_warnings():
+        warnings.simplefilter("ignore")
+        used, fresh = Iface(model), Iface(model)
     direct_model = model._copy_computational_model()
+    state_model = model._copy_computational_model()
+    strong_all = M.strong_names(model)
+
+    class _MK:
+        """coherent, complete input states from arbitrary input values: a private model copy evaluated from scratch
+        (independent of the interface under test)"""
+
+        @staticmethod
+        def update_state(sv, st):
+            state_model.state = st
+            for k in strong_all:
+                if k in sv:
+                    state_model.nodes[k]._value = sv[k]
+            for nd in state_model.nodes.values():
+                nd._outdated = nd.name not in strong_all
+            state_model.update()
+            for nd in state_model.nodes.values():
+                nd._outdated = False
+            return state_model.state
+    mk = _MK
     st0 = model.state
     if used.log_prob(st0) is None:
         chk.violation(f"{name}:log_prob-none", f"[{name}] interface.log_prob(model.state) returns None although the model's log-probability is {float(np.asarray(model.log_prob)):.4f}",
@@ -73,6 +107,7 @@ def liesel_scenario(chk, name):
         mutated.append(any(S2[k].value is not snap[k] for k in snap) or set(S2) != set(snap))
         r2f = fresh.update_state(p2, S2)
         m = direct_model
+        m.auto_update = True
         m.state = S2
         for n in m.nodes.values():
             n._outdated = False
@@ -200,7 +235,8 @@ def simple_interfaces(chk):
 
 def main():
     chk = Check("C03")
-    names = list(SCENARIOS) if chk.tier == "thorough" else ["regression+report/same-state", "regression+report/node-names", "weak-hierarchy", "user-supplied totals", "auto_transform"]
+    names = list(SCENARIOS) if chk.tier == "thorough" else ["regression+report/same-state", "regression+report/node-names", "weak-hierarchy", "user-supplied totals", "auto_transform",
+                                                             "regression+report/GooseModel", "regression+report/GooseModel/auto_update=False", "regression+report/auto_update=False"]
     obs = []
     for nm in names:
         res = chk.guarded(f"{nm}:trace", f"[{nm}] tracing the interface calls", liesel_scenario, chk, nm)
